@@ -64,6 +64,7 @@ int xp_expired(void) { return xp_now() > XS->deadline; }
 
 int xp_visit(const uint64_t key[2], int depth)
 {
+	xp_progress++;
 	size_t mask = XS->tabsize - 1;
 	size_t i = (size_t)key[0] & mask;
 	for (size_t probe = 0; probe < XS->tabsize; probe++, i = (i + 1) & mask) {
@@ -99,6 +100,7 @@ int xp_visit(const uint64_t key[2], int depth)
 
 void xp_outcome(uint64_t h)
 {
+	xp_progress++;
 	/* callers pass structured keys: finalize so that linear probing stays short */
 	h ^= h >> 33; h *= 0xff51afd7ed558ccdULL; h ^= h >> 33; h *= 0xc4ceb9fe1a85ec53ULL; h ^= h >> 33;
 	if (h == 0) h = 1;
@@ -134,7 +136,7 @@ void xp_sample(const char *fmt, ...)
 	unlock();
 }
 
-void xp_count(int idx, long n) { ADD(counters[idx], n); }
+void xp_count(int idx, long n) { xp_progress++; ADD(counters[idx], n); }
 
 static void json_escape(FILE *f, const char *s)
 {
@@ -233,6 +235,63 @@ void xp_leaf(void)
 	if (XC.is_child) xp_child_exit();
 }
 
+
+/* ------------------------------------------------------------------ */
+/* guard: executions of the code under test that never return, or crash */
+#include <sys/time.h>
+volatile long xp_progress;                      /* process-local: bumped by the explorer calls and by every context switch of the virtual world */
+static const char *guard_as; static volatile int *guard_cur; static int guard_on;
+static long guard_last = -1; static int guard_stale;
+static void guard_arm(void)
+{
+	struct itimerval it; memset(&it, 0, sizeof it);
+	it.it_value.tv_sec = 5; it.it_interval.tv_sec = 5;
+	guard_last = -1; guard_stale = 0;
+	setitimer(ITIMER_PROF, &it, NULL);       /* CPU time of this process, so a busy machine cannot trip it */
+}
+static void guard_report(const char *what, const char *detail_fmt, int n)
+{
+	int proc = guard_cur ? *guard_cur : 0;
+	if (guard_as && (guard_as[0] == '!' || (!strcmp(guard_as, "C05")) == (proc <= 0))) {
+		char s[120]; snprintf(s, sizeof s, "%s:%s", guard_as + (guard_as[0] == '!'), what);
+		xp_violation(s, detail_fmt, proc <= 0 ? "server" : "client", n);
+	} else ADD(counters[30], 1);
+	ADD(incomplete, 1);
+	if (XC.replay) { printf("REPLAY-NOTE execution aborted by the guard (%s)\n", what); fflush(stdout); }
+	_exit(0);
+}
+static void guard_prof(int sig)
+{
+	(void)sig;
+	long p = xp_progress;
+	if (p != guard_last) { guard_last = p; guard_stale = 0; return; }
+	if (++guard_stale < 4) return;
+	guard_report("not-processed-in-bounded-time", "the %s kept the CPU for %d s without returning to its select() loop", 20);
+}
+static void guard_crash(int sig)
+{
+	signal(sig, SIG_DFL);
+	guard_report("crashed", "the %s was killed by signal %d", sig);
+}
+/* san_as: NULL (count and abort the execution), "C05" (in the server: violation) or "C06" (in the client), or "!<id>" (always a violation of <id>:
+ * a pure function that does not return does not produce its documented result); curproc: the virtual world's current process */
+void xp_guard(const char *san_as, volatile int *curproc, int catch_crashes)
+{
+	guard_as = san_as; guard_cur = curproc; guard_on = 1;
+	signal(SIGPROF, guard_prof);
+#if defined(__SANITIZE_ADDRESS__)
+	catch_crashes = 0;          /* ASan reports the faulting access itself (on_sanitizer hook) */
+#endif
+	if (catch_crashes) {
+		static char altstack[65536];
+		stack_t ss; memset(&ss, 0, sizeof ss); ss.ss_sp = altstack; ss.ss_size = sizeof altstack;
+		sigaltstack(&ss, NULL);
+		struct sigaction sa; memset(&sa, 0, sizeof sa); sa.sa_handler = guard_crash; sa.sa_flags = SA_ONSTACK | SA_NODEFER;
+		sigaction(SIGSEGV, &sa, NULL); sigaction(SIGBUS, &sa, NULL); sigaction(SIGFPE, &sa, NULL); sigaction(SIGILL, &sa, NULL);
+	}
+	guard_arm();
+}
+
 static int forked_child(void)
 {
 	fflush(stdout);
@@ -242,7 +301,7 @@ static int forked_child(void)
 		for (int i = 0; i < 50 && pid < 0; i++) { usleep(20000); pid = fork(); }
 		if (pid < 0) { dprintf(1, "HARNESS-ERROR fork failed: %s\n", strerror(errno)); _exit(2); }
 	}
-	if (pid == 0) { XC.is_child = 1; return 0; }
+	if (pid == 0) { XC.is_child = 1; if (guard_on) guard_arm(); return 0; }
 	ADD(forks, 1);
 	int st;
 	while (waitpid(pid, &st, 0) < 0 && errno == EINTR) ;
@@ -302,6 +361,7 @@ void xp_run_jobs(int njobs, void (*fn)(int job), int nworkers)
 			if (pid == 0) {
 				XC.job = next;
 				XC.is_child = 0;      /* job root: xp_leaf() returns */
+				if (guard_on) guard_arm();
 				fn(next);
 				ADD(jobs_done, 1);
 				fflush(stdout);
